@@ -92,3 +92,59 @@ Proof.
     pose proof (increasing_last _ _ H2) as Hle.
     rewrite slice_app by lia. rewrite (last_default t2 c2 c from). reflexivity.
 Qed.
+
+(* ===== insert_padding: what is appended ===== *)
+Lemma concat_repeat_length : forall (nop : list Z) k, length (concat (repeat nop k)) = (k * length nop)%nat.
+Proof. intros nop k. induction k as [|k IH]; cbn [repeat concat]; [reflexivity|]. rewrite app_length, IH. cbn. lia. Qed.
+
+(* behind code: a whole number of nops; behind data (or nothing): zeros; in both cases exactly `size` bytes, and when the padding is
+   refused (PaddingError) the nop does not fit evenly *)
+Theorem padding_behind_code : forall nop st size b, nop <> [] -> 0 < size -> j_last st = Some b -> ib_code b = true ->
+  (size mod Z.of_nat (length nop) <> 0 -> insert_padding nop st size = Err ValueErr) /\
+  (size mod Z.of_nat (length nop) = 0 ->
+   exists st', insert_padding nop st size = Ok st' /\
+     iv_contents (j_dest st') = iv_contents (j_dest st) ++ concat (repeat nop (Z.to_nat (size / Z.of_nat (length nop)))) /\
+     Z.of_nat (length (iv_contents (j_dest st'))) = Z.of_nat (length (iv_contents (j_dest st))) + size).
+Proof.
+  intros nop st size b Hn Hs Hl Hc. unfold insert_padding. rewrite Hl, Hc.
+  assert (Hz : (size =? 0) = false) by (apply Z.eqb_neq; lia). rewrite Hz.
+  assert (Hlen : 0 < Z.of_nat (length nop)) by (destruct nop; [contradiction|cbn [length]; lia]).
+  split.
+  - intros Hm. apply Z.eqb_neq in Hm. rewrite Hm. reflexivity.
+  - intros Hm. pose proof Hm as Hm'. apply Z.eqb_eq in Hm'. rewrite Hm'. cbn [bind].
+    destruct (0 <? Z.of_nat (length (iv_contents (j_dest st) ++ concat (repeat nop (Z.to_nat (size / Z.of_nat (length nop)))))) - (ib_off b + ib_size b));
+      (eexists; split; [reflexivity|]; cbn [j_dest iv_contents]; split; [reflexivity|]);
+      rewrite app_length, concat_repeat_length, Nat2Z.inj_add, Nat2Z.inj_mul, Z2Nat.id by (apply Z.div_pos; lia);
+      apply Z.div_exact in Hm; lia.
+Qed.
+
+Theorem padding_behind_data : forall nop st size, 0 < size ->
+  (match j_last st with Some b => ib_code b = false | None => True end) ->
+  exists st', insert_padding nop st size = Ok st' /\
+    iv_contents (j_dest st') = iv_contents (j_dest st) ++ repeat 0 (Z.to_nat size).
+Proof.
+  intros nop st size Hs Hl. unfold insert_padding.
+  assert (Hz : (size =? 0) = false) by (apply Z.eqb_neq; lia). rewrite Hz.
+  destruct (j_last st) as [b|]; [rewrite Hl|]; cbn [bind];
+    match goal with |- context [if ?c then _ else _] => destruct c end; eexists; split; reflexivity.
+Qed.
+
+(* the bytes behind the last block are covered by a block of the last block's kind, up to the end of the contents *)
+Theorem padding_is_covered : forall nop st size st' b, insert_padding nop st size = Ok st' -> size <> 0 -> j_last st = Some b ->
+  ib_off b + ib_size b < Z.of_nat (length (iv_contents (j_dest st'))) ->
+  exists p, In p (iv_blocks (j_dest st')) /\ ib_off p = ib_off b + ib_size b /\
+            ib_off p + ib_size p = Z.of_nat (length (iv_contents (j_dest st'))) /\ ib_code p = ib_code b.
+Proof.
+  intros nop st size st' b E Hs Hl Hlt. unfold insert_padding in E.
+  assert (Hz : (size =? 0) = false) by (apply Z.eqb_neq; lia). rewrite Hz, Hl in E.
+  destruct (if ib_code b then _ else _) as [pad|e] eqn:Ep; cbn [bind] in E; [|discriminate E].
+  destruct (0 <? Z.of_nat (length (iv_contents (j_dest st) ++ pad)) - (ib_off b + ib_size b)) eqn:Epos;
+    injection E as <-; cbn [j_dest iv_contents iv_blocks] in *.
+  - eexists. split; [apply in_or_app; right; left; reflexivity|]. cbn [ib_off ib_size ib_code]. repeat split; lia.
+  - apply Z.ltb_ge in Epos. lia.
+Qed.
+
+Lemma abi_nops_are_whole_instructions : forall isa, abi_nop isa <> [] /\ (isa >= 2 -> length (abi_nop isa) = 4)%nat /\ (isa < 2 -> length (abi_nop isa) = 1)%nat.
+Proof.
+  intros isa. destruct isa as [|[|[|isa]]]; cbn; repeat split; try discriminate; try lia.
+Qed.
